@@ -102,6 +102,17 @@ def corruption_sites(pf, path, rng, limit, full):
             out.append((f"level {lv} header: box {b} offset moved by 8",
                         [("edit_cellh_line", dict(level=lv, lineno=first_fod + b,
                                                   newtext=f"FabOnDisk: {fodl[1]} {int(fodl[2]) + 8}"))], False))
+        # the box stored FIRST in a binary file (true offset 0): recorded a little inside its own FAB header line
+        firsts = [b for b in range(nb) if int(cellh[first_fod + b].split()[2]) == 0]
+        for b in (firsts if full else ([rng.choice(firsts)] if firsts else [])):
+            fodl = cellh[first_fod + b].split()
+            for sh in ([1, 8, 40] if full else [rng.choice([1, 8, 40])]):
+                out.append((f"level {lv} header: offset of box {b} (first in {fodl[1]}) recorded as {sh}",
+                            [("edit_cellh_line", dict(level=lv, lineno=first_fod + b, newtext=f"FabOnDisk: {fodl[1]} {sh}"))], False))
+        for b in sorted(set(boxes)):
+            lo, hi = lvi["indexes"][b]
+            nd = len(lo)
+            fodl = cellh[first_fod + b].split()
             out.append((f"level {lv} header: box {b} offset past end of file",
                         [("edit_cellh_line", dict(level=lv, lineno=first_fod + b,
                                                   newtext=f"FabOnDisk: {fodl[1]} {10 ** 9}"))], False))
